@@ -9,6 +9,7 @@ def run(rep, tier, seed):
     specs = [s for s in k_index.specs('C10') if s.name == 'clip_src_loc'] + k_offset.specs_text('C10')
     verify_all(rep, specs)
     k_order.c10_order(rep, 'C10')
+    k_offset.code_as_lines_finite(rep, 'C10')
     sec = native.run('b_raw', 'main', {'props': ['C10'], 'tier': tier, 'seed': seed, 'ops': ['reparse', 'rawput'],
                                        'max_fail': 100000}, timeout=7200)
     sec['native_entry'] = ('b_raw', 'replay')
